@@ -21,6 +21,10 @@ Stages (DESIGN.md 5 "C20", 3.5, 4.1):
        goroutine waits for a mutex; a request can be held inside the server call. Oracle (this file, schedule independent):
        every handler returns (wall-clock watchdog), nothing panics, statuses are legal, ConnEnd at most once per session at
        any time and exactly once after settling, no lock is left held, the ended sessions' cookies are refused.
+  T2w  window runs (harness/restdiff/window_on_test.go, lib/restsess.py window_stage): yield points before EVERY mutex acquisition and
+       timer-manager call found by text in net/rest/rest.go (transparent in the model-chosen schedules) park; the harness explores the
+       interleavings of request / DELETE / idle-expiry threads itself (preemption bound 2, fresh handler per execution, lock aware);
+       oracle on the real observations incl. C20_serve_before_end as an executable check (no server call after the session's ConnEnd).
   model: the real REST traces are replayed on the extracted Mrest under projection C20.
 
     bin/check C20 [--replay replays/C20/<file>.json]"""
@@ -246,7 +250,11 @@ ANCHORS = VERIF / "harness" / "restdiff" / "anchors.json"
 
 
 def build_sched(ctx):
-    """Instrumented build: one yield point per program point of the fine-grained model. -> dict(ok, why, test_bin, placed, missing)"""
+    """Instrumented build: one yield point per program point of the fine-grained model, plus the INNER yield points (before every
+    mutex acquisition and timer-manager call found by text in net/rest/rest.go, notes after every release).
+    -> dict(ok, why, test_bin, placed, missing, acq_sites, ok_window, accessor)
+       ok        the model-chosen schedules can run (every anchor of the model was placed and the copy builds)
+       ok_window the window runs can run (the copy builds and inner yield points were found) - they do not need the model's anchors"""
     try:
         from lib import instrument, seqtie
         work = ctx.work / "sched"
@@ -254,25 +262,37 @@ def build_sched(ctx):
         work.mkdir(parents=True)
         ins = instrument.instrument(ANCHORS, work, REPO)
     except Exception as ex:  # noqa
-        return dict(ok=False, why="instrumenter failed: %r" % (ex,), placed=[], missing=[])
-    if ins["missing"]:
-        return dict(ok=False, why="yield points could not be placed (the code's shape is not the one the anchors describe)", placed=ins["placed"], missing=ins["missing"])
+        return dict(ok=False, ok_window=False, why="instrumenter failed: %r" % (ex,), placed=[], missing=[], acq_sites=[])
     acc = work / "rest_verif.go"
     shutil.copy(VERIF / "harness" / "restdiff" / "rest_verif.go.in", acc)
-    rep = {str(REPO / k): str(VERIF / "harness" / "overlay" / v) for k, v in seqtie.OVERLAYS.items()}
-    rep.update(ins["overlay"])
-    rep[str(REPO / "net" / "rest" / "verif_hooks.go")] = str(acc)
-    ov = work / "overlay.json"
-    ov.write_text(json.dumps({"Replace": rep}))
+    base = {str(REPO / k): str(VERIF / "harness" / "overlay" / v) for k, v in seqtie.OVERLAYS.items()}
+    base.update(ins["overlay"])
     hdir = ctx.work / "harness"
     if not hdir.exists():
         hdir = vcheck.harness_dir(ctx)
     test_bin = work / "sched.test"
-    rc, out = sh([vcheck.GO, "test", "-c", "-vet=off", "-tags", "verif restsess restsched", "-overlay", str(ov), "-o", str(test_bin), "./restdiff"],
-                 cwd=hdir, env=vcheck.go_env(), timeout=900)
-    if rc != 0 or not test_bin.exists():
-        return dict(ok=False, why="the instrumented copy does not build", log=out[-3000:], placed=ins["placed"], missing=[])
-    return dict(ok=True, test_bin=test_bin, placed=ins["placed"], missing=[], work=work)
+    out, built, accessor = "", False, False
+    for use_sess in (True, False):
+        rep = dict(base)
+        if use_sess:
+            rep[str(REPO / "net" / "rest" / "verif_hooks.go")] = str(acc)
+        ov = work / "overlay.json"
+        ov.write_text(json.dumps({"Replace": rep}))
+        rc, out = sh([vcheck.GO, "test", "-c", "-vet=off", "-tags", "verif restsched" + (" restsess" if use_sess else ""), "-overlay", str(ov), "-o", str(test_bin), "./restdiff"],
+                     cwd=hdir, env=vcheck.go_env(), timeout=900)
+        if rc == 0 and test_bin.exists():
+            built, accessor = True, use_sess
+            break
+    res = dict(placed=ins["placed"], missing=ins["missing"], acq_sites=ins.get("acq_sites", []), work=work, accessor=accessor)
+    if not built:
+        res.update(ok=False, ok_window=False, why="the instrumented copy does not build", log=out[-3000:])
+        return res
+    res.update(test_bin=test_bin, ok_window=bool(res["acq_sites"]))
+    if ins["missing"]:
+        res.update(ok=False, why="yield points could not be placed (the code's shape is not the one the anchors describe)")
+    else:
+        res.update(ok=True)
+    return res
 
 
 def parse_sched_file(path):
@@ -380,9 +400,13 @@ def run(ctx):
         "sync.Mutex / sync.RWMutex.Lock are modelled as blocking steps with an owner; fairness is not assumed (no-deadlock is about enabledness, not about every thread eventually running)",
         "ConnEnd is LockServer.DestroySession of the session (grpc.go HandleConn), Mseq's EDisconnect; that it releases exactly the session's holds is C06, not re-proved here. "
         "The harness checks on the real server that no lock is left once every session has ended",
-        "races are driven without yield points inside rest.go (harness/vhook was not available): goroutines are released at chosen virtual instants (exact ties) or wall-clock instants, and a request can be held inside "
+        "the race stage (T2-races) is driven without yield points inside rest.go: goroutines are released at chosen virtual instants (exact ties) or wall-clock instants, and a request can be held inside "
         "the server call; the schedules actually taken are the Go scheduler's choice among those, so the race stage samples schedules — the all-schedules claim is the Coq theorem's",
         "POST /session draws a fresh cookie (pool_ok: at most one creator per cookie); a duplicate uuid would overwrite a live session's entry",
+        "window runs: the harness preempts a handler goroutine only at the inner yield points (before every mutex acquisition and timer-manager call found by text in net/rest/rest.go, inside the "
+        "server call, at the entry of HandleConn(ConnEnd)) - between two synchronisation operations a data-race-free handler cannot be observed by another goroutine; at most 2 preemptions per execution, "
+        "at most 3 handler threads + idle expiry per scenario; the search is exhaustive within that bound where the evidence says so, a capped sample otherwise; which goroutine owns which mutex is read "
+        "off acquisition / release notes that carry the mutex object's address (a lost note can only make the harness release a goroutine into a blocked mutex: a hang verdict, never a silent pass)",
     ]
     coq_ok = ctx.coq_stage()
     b = lib.build(ctx)
@@ -535,7 +559,12 @@ def run(ctx):
             ctx.note("T2-sched: in %d schedules a real thread passed a model program point without yielding (e.g. %s %s): the code's shape differs from the anchors; those schedules are not compared further"
                      % (n_drift, drift_example[0], drift_example[1][:120]))
 
-    any_real_failure = bool(n_fail or crashes or n_race_fail or n_sched_fail)
+    # ---- window runs: every inner yield point parks, the harness explores the interleavings, a model-independent oracle judges
+    from lib import restsess
+    wres = restsess.window_stage(ctx, sb=sb, limit=max(1, 4 - len(ctx.violations)))
+    n_window = wres["executed"]
+
+    any_real_failure = bool(n_fail or crashes or n_race_fail or n_sched_fail or wres["failing"])
     if first_sched_mis and not any_real_failure:
         sid_, v, text, tr = first_sched_mis
         ctx.violation({"broken": "correspondence T2 (fine-grained model vs instrumented handler)", "kind": "sched", "schedule_id": sid_, "first_difference": " ".join(v), "schedule": text,
@@ -564,7 +593,7 @@ def run(ctx):
                  "random_virtual_clock": nv, "random_wall_clock": nr, "corpus": len(race_corpus), "failing": n_race_fail, "failing_rules": race_rules,
                  "oracle": "handlers return, no panic, legal statuses, ConnEnd <= 1 at any time and == 1 after settling, no lock left, ended cookies refused"})
     cov["traces_validated_against_impl"] = n_cases
-    cov["evaluations"] = n_req + n_races + n_items
+    cov["evaluations"] = n_req + n_races + n_items + n_window
     cov["distinct_nontrivial"] = len(kinds) + len(race_kinds) + cov.pop("distinct_sched", 0)
     cov["exhaustive"] = False
     cov["rule"] = ("T1: histories generated online from one PCG stream per (seed, index), executed event by event on the real REST handler in a synctest bubble, a probe after "
@@ -586,6 +615,10 @@ def do_replay(ctx, b, runner):
     except Exception as ex:  # noqa
         print("cannot read replay file: %r" % (ex,))
         ctx.violation({"broken": "replay", "file": str(ctx.replay)}, "replay file unreadable", name="replay_unreadable.json", no_failing_input=True)
+        return
+    if r.get("kind") == "window":
+        from lib import restsess
+        restsess.replay_window(ctx, r)
         return
     if r.get("kind") == "sched":
         text = r.get("schedule")
